@@ -45,6 +45,7 @@ type pipelineStateMachine struct {
 	completedCallbackFn func(err error)          // pipeline execute completed will invoke
 	mutex               sync.Mutex
 	completed           atomic.Bool
+	err                 error // first error of any stage(guarded by mutex)
 
 	tracker *trackerpkg.StageTracker
 }
@@ -93,6 +94,10 @@ func (sm *pipelineStateMachine) executeStage(parentStageID, stageID string, stag
 // completeStage tracks stage complete execution state.
 func (sm *pipelineStateMachine) completeStage(stageID string, err error) {
 	sm.mutex.Lock()
+	if err != nil && sm.err == nil {
+		// remember the first failure, the stage which completes last may be a successful one
+		sm.err = err
+	}
 	if s, ok := sm.stages[stageID]; ok {
 		var errMsg string
 		if err != nil {
@@ -115,8 +120,11 @@ func (sm *pipelineStateMachine) completeStage(stageID string, err error) {
 	sm.mutex.Unlock()
 
 	if sm.pending.Dec() == 0 {
-		// check if all stages execute completed
-		sm.complete(err)
+		// check if all stages execute completed; every failed stage recorded its error before its own decrement
+		sm.mutex.Lock()
+		firstErr := sm.err
+		sm.mutex.Unlock()
+		sm.complete(firstErr)
 	}
 }
 
